@@ -43,11 +43,14 @@ CONSTANTS Names,      \* object names (strings)
           Metas,      \* meta data values (positive integers)
           Page,       \* code: PAGE_SIZE = 256                      (archive.rs:57)
           Header,     \* code: ObjectHeader::SIZE = 33              (archive.rs:1063)
-          NameMeta,   \* name length + Meta::SIZE (all names of a run have one length)
+          NameMeta,   \* name length + Meta::SIZE in units (sizes are abstract: the replay keeps the page count and the fill
+                      \* class of every object whatever the real length of its name)
+          LongNames,  \* the names that are longer than the others (the replay gives them more bytes): find may not care
           IndexEnd,   \* first position behind magic, archive meta and index (code: 8230)
           MaxOps,     \* bound on the number of operations (0 = unbounded, nops is then not counted)
           MaxFile,    \* bound on the file size in units
           Variant     \* "code" | "no_unlink_on_coalesce" | "no_chain_on_split" | "stale_next_on_split" | "fits_any"
+                      \* | "prev_skips_other_length"
 
 ASSUME /\ Header >= 1 /\ Header <= Page /\ IndexEnd >= 1
        /\ BucketOf \in [Names -> 1..NBuckets]
@@ -113,7 +116,13 @@ Find(D, n) ==
       idx == {i \in 1..Len(c) : D.hdr[c[i]].name = n}
   IN IF idx = {} THEN [found |-> FALSE, start |-> Nil, prev |-> Nil]
      ELSE LET i == MinOf(idx)
-          IN [found |-> TRUE, start |-> c[i], prev |-> IF i = 1 THEN Nil ELSE c[i - 1]]
+              \* seeded fault "prev_skips_other_length": a length shortcut in the walk passes over names of another
+              \* length without remembering them as the predecessor
+              same == {j \in 1..(i - 1) : (D.hdr[c[j]].name \in LongNames) = (n \in LongNames)}
+              pred == IF Variant = "prev_skips_other_length"
+                        THEN (IF same = {} THEN Nil ELSE c[CHOOSE j \in same : \A k \in same : k <= j])
+                        ELSE (IF i = 1 THEN Nil ELSE c[i - 1])
+          IN [found |-> TRUE, start |-> c[i], prev |-> pred]
 
 (* unlink_empty, archive.rs:469-493 *)
 UnlinkEmpty(D, start, next) ==
